@@ -462,7 +462,7 @@ func c13Gen(c *Ctx) {
 
 func init() {
 	register("C13", &PropDef{
-		Rule:   "image entry points (Parse, Signatures, Hash, Bytes, Verify) and signature entry points (ParsePKCS7, ParseAuthenticode, both Verifys) in a sandboxed worker process (address-space limit, per-input timeout, TotalAlloc delta). Images: repository binaries and generated signed images under sweeps of e_lfanew, SizeOfOptionalHeader, NumberOfSections, NumberOfRvaAndSizes, SizeOfHeaders, section offsets/sizes (incl. overlap, 2^31, 2^32-1), certificate directory address/size beyond the file, WIN_CERTIFICATE dwLength (<8, huge), every ~2% truncation point, random header bytes; the section sweeps cover the first three and the last section header (raw data at / beyond the end of the file included). WIN_CERTIFICATEs (certificate-table entries of the signed images, signature blobs in a fresh wrapper, an empty and a GUID-typed one) are read by ReadWinCertificate through 8 kinds of io.Reader (bytes.Reader, bytes.Buffer, bufio.Reader, io.SectionReader, an open os.File, io.Pipe, a reader with no method but Read, a one-byte reader) with dwLength in {0,1,7,8,9,n-1,n,n+1,n+8,2n,2^16,2^20,2^24,2^28,2^31-1,2^31,2^32-8,2^32-1} over the full body and over 0..16 bytes of body, truncations and wrong revisions; the same time/memory oracle, and the decoded fields are compared with the Lean model of the reader for every kind. Signatures: library/fixture/CMS-shaped blobs under bit flips, per-leaf flips, structural DER edits, targeted forgeries (incl. dropped signed attributes), oversized and truncated lengths; each verified with the certificate its signer entry names and, for a quarter, with a stranger's. Non-trivial: non-empty input; distinct = distinct inputs.",
+		Rule:   "image entry points (Parse, Signatures, Hash, Bytes, Verify) and signature entry points (ParsePKCS7, ParseAuthenticode, both Verifys) in a sandboxed worker process (address-space limit, per-input timeout, TotalAlloc delta). Images: repository binaries and generated signed images under sweeps of e_lfanew, SizeOfOptionalHeader, NumberOfSections, NumberOfRvaAndSizes, SizeOfHeaders, section offsets/sizes (incl. overlap, 2^31, 2^32-1), certificate directory address/size beyond the file, WIN_CERTIFICATE dwLength (<8, huge), every ~2% truncation point, random header bytes; the section sweeps cover the first three and the last section header (raw data at / beyond the end of the file included). WIN_CERTIFICATEs (certificate-table entries of the signed images, signature blobs in a fresh wrapper, an empty and a GUID-typed one) are read by ReadWinCertificate through 8 kinds of io.Reader (bytes.Reader, bytes.Buffer, bufio.Reader, io.SectionReader, an open os.File, io.Pipe, a reader with no method but Read, a one-byte reader) with dwLength in {0,1,7,8,9,n-1,n,n+1,n+8,2n,2^16,2^20,2^24,2^28,2^31-1,2^31,2^32-8,2^32-1} over the full body and over 0..16 bytes of body, truncations and wrong revisions; the same time/memory oracle, and the decoded fields are compared with the Lean model of the reader for every kind. Signatures: library/fixture/CMS-shaped blobs under bit flips, per-leaf flips, structural DER edits, targeted forgeries (incl. dropped signed attributes, two-signer-entry combinations, and blobs nested inside blobs: unsigned attributes, certificates, CRLs, content, signer entries, trailing fields), oversized and truncated lengths; each verified with the certificate its signer entry names and, for a quarter, with a stranger's. Non-trivial: non-empty input; distinct = distinct inputs.",
 		Assume: []string{"allocation budget 64 bytes per input byte + 4 MiB; time limit 0.5 s + 1 µs per input byte; an input that got no answer after ten times its limit (at least 5 s) is reported as hanging and the worker is killed; after 3 such inputs the rest of the run is not executed (class not-run-after-timeouts)", "wall-clock time and resident memory are runtime facts measured on the sampled inputs only"},
 		Eval:   c13Eval, Gen: c13Gen,
 	})
